@@ -809,6 +809,8 @@ fn f7(tier: &Tier) -> Vec<(Box<dyn Family>, u64)> {
         // the interference families (constrains between transitive packages, back edges)
         (Box::new(F8b), 1),
         (Box::new(F9 { wide: false }), if q { 997 } else { 31 }),
+        // a package first revealed after a decision for another transitive package (matters with hints)
+        (Box::new(F10), if q { 499 } else { 17 }),
     ]
 }
 
@@ -844,6 +846,8 @@ pub fn run_e2(ctx: &Ctx) -> i32 {
             AsyncPlan { sort_cb: SortCallback::None, hint_mask: None, mask: K_CANDS | K_DEPS, pairs: true, hint: None, complete_cap: 300, dev_bound: 1, dev_cap: 300 },
             // hints on every second package only
             AsyncPlan { sort_cb: SortCallback::None, hint_mask: Some(0b10101), mask: K_CANDS | K_DEPS, pairs: false, hint: None, complete_cap: 300, dev_bound: 1, dev_cap: 300 },
+            // ... and on the other packages only
+            AsyncPlan { sort_cb: SortCallback::None, hint_mask: Some(0b01010), mask: K_CANDS | K_DEPS, pairs: false, hint: None, complete_cap: 300, dev_bound: 1, dev_cap: 300 },
             // filter_candidates and sort_candidates suspend as well
             AsyncPlan { sort_cb: SortCallback::None, hint_mask: None, mask: K_CANDS | K_DEPS | K_FILTER | K_SORT, pairs: false, hint: None, complete_cap: 300, dev_bound: 1, dev_cap: 300 },
         ]
@@ -852,6 +856,8 @@ pub fn run_e2(ctx: &Ctx) -> i32 {
             AsyncPlan { sort_cb: SortCallback::None, hint_mask: None, mask: K_CANDS | K_DEPS, pairs: false, hint: None, complete_cap: 20000, dev_bound: 3, dev_cap: 50000 },
             AsyncPlan { sort_cb: SortCallback::None, hint_mask: None, mask: K_CANDS | K_DEPS | K_FILTER | K_SORT, pairs: false, hint: Some(Hint::All), complete_cap: 20000, dev_bound: 2, dev_cap: 50000 },
             AsyncPlan { sort_cb: SortCallback::None, hint_mask: None, mask: K_CANDS | K_DEPS, pairs: true, hint: None, complete_cap: 20000, dev_bound: 2, dev_cap: 50000 },
+            AsyncPlan { sort_cb: SortCallback::None, hint_mask: Some(0b10101), mask: K_CANDS | K_DEPS, pairs: false, hint: None, complete_cap: 20000, dev_bound: 2, dev_cap: 50000 },
+            AsyncPlan { sort_cb: SortCallback::None, hint_mask: Some(0b01010), mask: K_CANDS | K_DEPS, pairs: false, hint: None, complete_cap: 20000, dev_bound: 2, dev_cap: 50000 },
         ]
     };
     let mut plans = plans;
